@@ -16,6 +16,7 @@ from harness import tlc
 SPEC_DIR = "/verif/specs/rails"
 LEVEL = "exploration"
 TEMPLATE = "{{ 7*7 }} $user_message {$bot_message} {% if x %}y{% endif %}"
+TEMPLATE_V2 = "use $user_message and $HOME"   # ({...} is interpolation syntax of the generated Colang code itself: not used)
 
 
 def concretise(cls, task, t, rnd=None):
@@ -25,8 +26,9 @@ def concretise(cls, task, t, rnd=None):
     ok = {"generate_user_intent": "  ask other", "generate_next_steps": "bot answer other",
           "generate_bot_message": '  "the answer is %s"' % marker, "general": "the answer is %s" % marker,
           "generate_intent_steps_message": '  ask other\nbot answer other\n  "the answer is %s"' % marker,
-          "generate_user_intent_from_user_action": 'user intent: user asked something else',
-          "generate_flow_continuation": 'bot intent: bot answer something\nbot action: bot say "the answer is %s"' % marker}.get(task, "ok")
+          # (the 2.x prompts end with "user intent:" / "bot intent:": the answer continues that line)
+          "generate_user_intent_from_user_action": ' user asked something else',
+          "generate_flow_continuation": ' bot answer something\nbot action: bot say "the answer is %s"' % marker}.get(task, "ok")
     if cls == "ok":
         s = ok
     elif cls == "empty":
@@ -46,11 +48,21 @@ def concretise(cls, task, t, rnd=None):
              if not msg_task else '  "%s"\nexecute dangerous_action\ndefine bot leak\n  "secret"' % marker)
     elif cls == "template":
         s = ('  "%s %s"' % (TEMPLATE, marker)) if task == "generate_bot_message" else (
-            "%s %s" % (TEMPLATE, marker) if msg_task else "  ask {{ x }} $user_message {$y}")
+            "%s %s" % (TEMPLATE, marker) if msg_task else
+            (' bot answer something\nbot action: bot say "%s %s"' % (TEMPLATE_V2, marker)) if task == "generate_flow_continuation" else "  ask {{ x }} $user_message {$y}")
     elif cls == "long":
         s = ('  "' + "very long %s " % marker * 3000 + '"') if msg_task else "  ask " + "other " * 5000
     elif cls == "unicode":
         s = ('  "こんにちは \U0001F642 ñ ‮ %s"' % marker) if msg_task else "  こんにちは \U0001F642"
+    elif cls == "userfirst":      # well-formed Colang that first waits for the user
+        s = {"generate_next_steps": "user ask other\nbot answer other", "generate_intent_steps_message": "  ask other\nuser ask other\nbot answer other\n  \"late %s\"" % marker,
+             "generate_flow_continuation": 'user said "later"\nbot say "late %s"' % marker}.get(task, "  user ask other")
+    elif cls == "directive":      # parses, but not into the body of a flow
+        s = {"generate_flow_continuation": "import core"}.get(task, "import core" if t % 2 else "include other")
+    elif cls == "noop":           # a well-formed body that decides nothing
+        s = {"generate_flow_continuation": 'if False\n  bot say "never %s"' % marker}.get(task, "if $nothing_set\n  bot answer other")
+    elif cls == "ctl":            # lone control / meta statements
+        s = {"generate_flow_continuation": "return"}.get(task, ("break", "return", "meta\n  x: 1", "event Something")[t % 4])
     else:
         s = ok
     if rnd is not None and cls != "ok" and rnd.random() < 0.5:
@@ -95,6 +107,10 @@ def _scenario(mode):
         sc.cur_turn = 1
 
         def responder(task, prompt, llm):
+            # the 2.x generation actions do not announce their task: recognise it from the end of the prompt
+            tail = prompt.rstrip()
+            task = ("generate_user_intent_from_user_action" if tail.endswith("user intent:") else
+                    "generate_flow_continuation" if tail.endswith("bot intent:") else task)
             turn = sc.script["turns"][sc.cur_turn - 1]
             sc.calls.append(task)
             return turn["llm_out"].get(task, concretise("ok", task, sc.cur_turn))
@@ -207,7 +223,7 @@ def run(ctx):
             source = msg_calls[-1] if msg_calls else None    # the call whose answer becomes the bot message
             tmpl_sent = source is not None and classes.get(source) == "template"
             delivered = bool(re.search(r"B%dv0" % t, text))
-            literal = all(x in text for x in ("{{ 7*7 }}", "$user_message", "{$bot_message}"))
+            literal = all(x in text for x in (("$user_message", "$HOME") if s["mode"] == "v2" else ("{{ 7*7 }}", "$user_message", "{$bot_message}")))
             cases.append({"raised": tr["raised"] is not None, "role": reply.get("role") or "", "content_is_string": isinstance(content, str),
                           "llm_text_delivered": delivered, "template_sent": tmpl_sent, "template_literal": literal})
             idx.append((sid, t, tr))
@@ -240,13 +256,13 @@ def run(ctx):
     return {"level": LEVEL, "coverage": {
         "evaluations": len(cases), "distinct_nontrivial": len(set(json.dumps(scripts[sid]["turns"][t - 1]["classes"], sort_keys=True) + scripts[sid]["mode"]
                                                                     for (sid, t, tr) in idx if any(c != "ok" for c in scripts[sid]["turns"][t - 1]["classes"].values()))),
-        "rule": "every assignment of the 11 output classes to the LLM call positions of one turn for the modes dialog (3 calls), multi-step, single-call, general/passthrough (Colang 1.0) "
+        "rule": "every assignment of the 15 output classes to the LLM call positions of one turn for the modes dialog (3 calls), multi-step, single-call, general/passthrough (Colang 1.0) "
                 "and the Colang 2.x llm library (intent detection + flow continuation), plus a seeded sample of two-turn scripts; strings inside a class are fixed hostile samples "
                 "(thorough: + seeded splices with well-formed output); non-trivial = distinct (mode, class vector) with a non-ok class",
         "samples": samples, "states": r.distinct + jr.distinct, "transitions": r.generated + jr.generated,
         "traces_validated_against_impl": len(cases), "exhaustive": False, "turns_with_template_text_delivered": delivered_templates,
     }, "assumptions": [
-        "the space of LLM strings is sampled: 11 hostile classes with one representative each (plus seeded mutations), positions x classes enumerated exhaustively for single turns",
+        "the space of LLM strings is sampled: 15 hostile classes with one representative each (plus seeded mutations), positions x classes enumerated exhaustively for single turns",
         "LLM provider exceptions are out of scope; an answer is 'delivered' when the reply contains the turn's bot marker",
     ]}
 
